@@ -203,8 +203,9 @@ def main(argv=None):
         "wall_s": round(wall, 3),
         "violations": len(violations),
     }
-    os.makedirs(os.path.join(VERIF, "evidence"), exist_ok=True)
-    with open(os.path.join(VERIF, "evidence", f"{pid}.json"), "w") as f:
+    evdir = os.environ.get("VERIF_EVIDENCE_DIR") or os.path.join(VERIF, "evidence")  # override only for experiments on scratch worktrees
+    os.makedirs(evdir, exist_ok=True)
+    with open(os.path.join(evdir, f"{pid}.json"), "w") as f:
         json.dump(ev, f, indent=1, default=str)
 
     print(f"[{pid}] tier={a.tier} jobs={len(results)} paths={ev['coverage']['states']} queries={ev['coverage']['transitions']} "
